@@ -45,12 +45,18 @@ Norm2(a) == Dot(a, a)
 Cos4(q) == CASE q % 4 = 0 -> 1 [] q % 4 = 1 -> 0 [] q % 4 = 2 -> -1 [] OTHER -> 0
 Sin4(q) == CASE q % 4 = 0 -> 0 [] q % 4 = 1 -> 1 [] q % 4 = 2 -> 0 [] OTHER -> -1
 
-(* rationals <<n, d>>, d # 0 (not normalised; compared by cross multiplication) *)
+(* rationals <<n, d>>, d # 0, kept in lowest terms with d > 0 (TLC integers are 32 bit); *)
+(* compared by cross multiplication                                                       *)
+Abs(x) == IF x < 0 THEN 0 - x ELSE x
+RECURSIVE Gcd(_, _)
+Gcd(a, b) == IF b = 0 THEN a ELSE Gcd(b, a % b)
+RNorm(r) == LET g == Gcd(Abs(r[1]), Abs(r[2]))  sg == IF r[2] < 0 THEN 0 - 1 ELSE 1
+            IN IF g = 0 THEN r ELSE <<sg * (r[1] \div g), sg * (r[2] \div g)>>
 RInt(n) == <<n, 1>>
-RAdd(a, b) == <<a[1] * b[2] + b[1] * a[2], a[2] * b[2]>>
-RSub(a, b) == <<a[1] * b[2] - b[1] * a[2], a[2] * b[2]>>
-RMul(a, b) == <<a[1] * b[1], a[2] * b[2]>>
-RDiv(a, b) == <<a[1] * b[2], a[2] * b[1]>>
+RAdd(a, b) == RNorm(<<a[1] * b[2] + b[1] * a[2], a[2] * b[2]>>)
+RSub(a, b) == RNorm(<<a[1] * b[2] - b[1] * a[2], a[2] * b[2]>>)
+RMul(a, b) == RNorm(<<a[1] * b[1], a[2] * b[2]>>)
+RDiv(a, b) == RNorm(<<a[1] * b[2], a[2] * b[1]>>)
 REq(a, b) == a[1] * b[2] = b[1] * a[2]
 RECURSIVE RSumSeq(_)
 RSumSeq(s) == IF s = <<>> THEN RInt(0) ELSE RAdd(Head(s), RSumSeq(Tail(s)))
@@ -86,6 +92,47 @@ SummateIncompr(i) ==
 KrigFac(i, r, c) == SumSeq([j \in 1..Len(i.mat) |-> i.mat[r][j] * i.vecs[j][c]])
 KrigeField(i) == [c \in 1..i.m |-> SumSeq([r \in 1..Len(i.mat) |-> i.cond[r] * KrigFac(i, r, c)])]
 KrigeError(i) == [c \in 1..i.m |-> SumSeq([r \in 1..Len(i.mat) |-> i.vecs[r][c] * KrigFac(i, r, c)])]
+
+(* Kriging through the public caller on a configuration whose system has a closed  *)
+(* form: n conditioning points that are mutually out of range of a compactly       *)
+(* supported model (covariance c0 at distance 0, exactly 0 beyond the range), and   *)
+(* targets that are either at conditioning point j (i.tg = j) or out of range of     *)
+(* every condition (i.tg = 0: the covariance block of that right-hand-side column is *)
+(* identically zero).  Simple kriging (i.unb = FALSE, known mean i.mean):            *)
+(*     K = c0 I,                M = I / c0                                           *)
+(* ordinary kriging (i.unb = TRUE: extra row / column of ones, estimated mean):      *)
+(*     K = [c0 I, 1; 1^T, 0],   M = [(I - J/n)/c0, 1/n; 1^T/n, -c0/n]                *)
+(* FarInverseOK (checked by TLC) states K M = I, so M is the matrix the kernels are  *)
+(* applied to.  The defining sums then give, column by column, the raw field         *)
+(* sum_r cond_r (M rhs)_r and the error rhs^T M rhs; the caller must return          *)
+(* field = mean + raw field and krige_var = c0 - error.  In particular for a far     *)
+(* target: simple -> (mean, c0); ordinary -> (average of the data, c0 + c0/n).       *)
+FarN(i) == Len(i.cond)
+FarSize(i) == FarN(i) + (IF i.unb THEN 1 ELSE 0)
+FarK(i, r, c) == IF r <= FarN(i) /\ c <= FarN(i) THEN (IF r = c THEN i.c0 ELSE 0)
+                 ELSE IF r = c THEN 0 ELSE 1
+FarM(i, r, c) ==
+  LET n == FarN(i) IN
+  IF ~i.unb THEN (IF r = c THEN <<1, i.c0>> ELSE RInt(0))
+  ELSE IF r <= n /\ c <= n THEN <<(IF r = c THEN n ELSE 0) - 1, n * i.c0>>
+  ELSE IF r = c THEN <<0 - i.c0, n>>
+  ELSE <<1, n>>
+FarRhs(i, t, r) == IF r > FarN(i) THEN 1 ELSE IF t = r THEN i.c0 ELSE 0
+FarCond(i, r) == IF r > FarN(i) THEN 0 ELSE i.cond[r] - i.mean
+FarFac(i, t, r) == RSumSeq([c \in 1..FarSize(i) |-> RMul(FarM(i, r, c), RInt(FarRhs(i, t, c)))])
+FarRaw(i, t) == RSumSeq([r \in 1..FarSize(i) |-> RMul(RInt(FarCond(i, r)), FarFac(i, t, r))])
+FarErr(i, t) == RSumSeq([r \in 1..FarSize(i) |-> RMul(RInt(FarRhs(i, t, r)), FarFac(i, t, r))])
+KrigeFar(i) ==
+  [mat   |-> [r \in 1..FarSize(i) |-> [c \in 1..FarSize(i) |-> FarM(i, r, c)]],
+   raw   |-> [p \in 1..Len(i.tg) |-> FarRaw(i, i.tg[p])],
+   err   |-> [p \in 1..Len(i.tg) |-> FarErr(i, i.tg[p])],
+   field |-> [p \in 1..Len(i.tg) |-> RAdd(RInt(i.mean), FarRaw(i, i.tg[p]))],
+   var   |-> [p \in 1..Len(i.tg) |-> RSub(RInt(i.c0), FarErr(i, i.tg[p]))]]
+FarInverseOK ==
+  inp.kind = "krige_far" =>
+    \A r \in 1..FarSize(inp), c \in 1..FarSize(inp) :
+       REq(RSumSeq([k \in 1..FarSize(inp) |-> RMul(RInt(FarK(inp, r, k)), FarM(inp, k, c))]),
+           RInt(IF r = c THEN 1 ELSE 0))
 
 (* light versions of the variogram estimators (Matheron; the full definition     *)
 (* with directions, masks, Cressie, haversine is the subject of Vario.tla/C08):  *)
@@ -177,6 +224,7 @@ Result(i) ==
     [] i.kind = "fourier"    -> [field |-> SummateFourier(i)]
     [] i.kind = "incompr"    -> [field |-> SummateIncompr(i)]
     [] i.kind = "krige"      -> [field |-> KrigeField(i), error |-> KrigeError(i)]
+    [] i.kind = "krige_far"  -> KrigeFar(i)
     [] i.kind = "vario_u"    -> [bins |-> VarioUnstructured(i)]
     [] i.kind = "vario_s"    -> [bins |-> VarioStructured(i)]
     [] i.kind = "vario_d"    -> [dirs |-> VarioDirectional(i), coincident |-> VarioCoincident(i)]
